@@ -22,7 +22,7 @@
    That rename(2) rebinds the destination in one step is the semantics of
    [Rename] in the model, not a theorem. *)
 From Coq Require Import String Ascii List Bool Arith Permutation.
-From Shoot Require Import Model.Fs Proofs.FsProofs.
+From Shoot Require Import Model.Fs Proofs.FsProofs Corr.FsCorr Proofs.FsCorrProofs.
 Import ListNotations.
 Local Open Scope string_scope.
 
@@ -249,6 +249,26 @@ Theorem C17_crash_state_is_a_state : forall init p,
   nofds s /\ dir_wf s /\ keys_nodup (dir s) /\ (forall n, visible s n = visible (exec init p) n).
 Proof. exact crash_state_is_a_state. Qed.
 Print Assumptions C17_crash_state_is_a_state.
+
+(* ---- the boolean property evaluated on observations (Corr/FsCorr.v [Pb]) is the theorems'
+   statement: if the traced operations of a case are the model's plan (for guards that
+   hold) and the directory seen after the run is the model's final state, then the
+   conjuncts P_atomic and P_stable of [Pb] are true.  A run that agrees with the model
+   cannot be reported as a violation of atomicity, and a reported one cannot agree. *)
+Theorem C17_Pb_atomic_is_the_theorem : forall (k : case) outs,
+  k_ops k = plan (cfg_of k) (init_of k) outs -> good (cfg_of k) (init_of k) outs ->
+  (forall n, In n (names_of k) -> ~ In n (temps outs)) ->
+  (forall n, In n (names_of k) -> after_visible k n = visible (exec (init_of k) (k_ops k)) n) ->
+  P_atomic k = true.
+Proof. exact agree_atomic. Qed.
+Print Assumptions C17_Pb_atomic_is_the_theorem.
+
+Theorem C17_Pb_stable_is_the_theorem : forall (k : case) outs,
+  k_ops k = plan (cfg_of k) (init_of k) outs -> good (cfg_of k) (init_of k) outs ->
+  (forall n, In n (names_of k) -> ~ In n (temps outs)) ->
+  P_stable k = true.
+Proof. exact agree_stable. Qed.
+Print Assumptions C17_Pb_stable_is_the_theorem.
 
 (* ------------------------------------------------------------ non-vacuity *)
 (* An all-in-one run of `shoot new -type=*` in a directory with an old
